@@ -110,10 +110,9 @@ func hintIndex(d *DSystem) map[uint32]int {
 	return m
 }
 
-// coqCase prints one solver case (system, witness, recorded hint calls, observation).
-func coqSolverCase(d *DSystem, wit []*big.Int, obs *SolveObs) string {
+// instructions as Coq terms, hint ids replaced by small indices (never print a large nat literal)
+func coqInstrList(d *DSystem) []string {
 	hidx := hintIndex(d)
-	// instructions with hint ids replaced by small indices
 	ss := make([]string, len(d.Instrs))
 	for i := range d.Instrs {
 		in := d.Instrs[i]
@@ -122,6 +121,13 @@ func coqSolverCase(d *DSystem, wit []*big.Int, obs *SolveObs) string {
 		}
 		ss[i] = "(" + in.Coq() + ")"
 	}
+	return ss
+}
+
+// coqCase prints one solver case (system, witness, recorded hint calls, observation).
+func coqSolverCase(d *DSystem, wit []*big.Int, obs *SolveObs) string {
+	hidx := hintIndex(d)
+	ss := coqInstrList(d)
 	hs := []string{}
 	for _, h := range obs.Hints {
 		hs = append(hs, fmt.Sprintf("(%d, %s, %s, %s)", hidx[h.ID], zlist(h.In), zlist(h.Out), coqbool(!h.Fail)))
